@@ -4,20 +4,24 @@ Open Scope N_scope.
 
 Definition nospace (w : list N) : Prop := Forall (fun c => is_space c = false) w.
 Record qual := { qk : list N; qv : list N; qquoted : bool }.
-Record wfeat := { fk : list N; floc : list N; fquals : list qual }.
+Record wfeat := { fk : list N; floc : list N; fmore : list (list N); fquals : list qual }.   (* fmore: the rest of a location too long for one line *)
 Definition indent (n : nat) : list N := repeat 32 n.
 Definition feat_line (f : wfeat) : list N := indent 5 ++ fk f ++ indent 3 ++ floc f.
 Definition value_text (q : qual) : list N := if qquoted q then [34] ++ qv q ++ [34] else qv q.
 Definition qual_line (q : qual) : list N := indent 21 ++ [47] ++ qk q ++ [61] ++ value_text q.
-Definition render_features (fs : list wfeat) : list (list N) := concat (map (fun f => feat_line f :: map qual_line (fquals f)) fs).
+Definition cont_line (c : list N) : list N := indent 21 ++ c.
+Definition feat_lines (f : wfeat) : list (list N) := feat_line f :: map cont_line (fmore f) ++ map qual_line (fquals f).
+Definition render_features (fs : list wfeat) : list (list N) := concat (map feat_lines fs).
+Definition full_loc (f : wfeat) : list N := floc f ++ concat (fmore f).
 Definition kv (q : qual) : list N * list N := (qk q, qv q).
-Definition parsed (f : wfeat) : gbfeat := {| gf_key := fk f; gf_loc := floc f; gf_info := Some (map kv (fquals f)) |}.
+Definition parsed (f : wfeat) : gbfeat := {| gf_key := fk f; gf_loc := full_loc f; gf_info := Some (map kv (fquals f)) |}.
 
 Definition lacks (s : N) (x : list N) : Prop := forall c, In c x -> c <> s.
 Definition wf_qual (q : qual) : Prop :=
   qk q <> [] /\ lacks 61 (qk q) /\ qv q <> [] /\ lacks 61 (qv q) /\ lacks 34 (qv q) /\ (qquoted q = false -> nospace (qv q)).
+Definition wf_chunk (c : list N) : Prop := c <> [] /\ nospace c /\ hd 0 c <> 47.
 Definition wf_feat (f : wfeat) : Prop :=
-  fk f <> [] /\ nospace (fk f) /\ hd 0 (fk f) <> 47 /\ floc f <> [] /\ nospace (floc f) /\ fquals f <> [] /\ Forall wf_qual (fquals f).
+  fk f <> [] /\ nospace (fk f) /\ hd 0 (fk f) <> 47 /\ floc f <> [] /\ nospace (floc f) /\ fquals f <> [] /\ Forall wf_qual (fquals f) /\ Forall wf_chunk (fmore f).
 
 (* ---- strings.Fields and TrimSpace on these lines ---- *)
 Lemma fields_word w : nospace w -> forall rest rcur, fields_go (w ++ rest) rcur = fields_go rest (rev w ++ rcur).
@@ -122,14 +126,15 @@ Proof.
 Qed.
 
 (* ---- one line at a time ---- *)
-Definition mk (f : wfeat) : gbfeat := {| gf_key := fk f; gf_loc := floc f; gf_info := Some [] |}.
-Lemma new_feat_line f : wf_feat f -> new_feat (feat_line f) = mk f.
+Definition mk0 (f : wfeat) : gbfeat := {| gf_key := fk f; gf_loc := floc f; gf_info := Some [] |}.
+Definition mk (f : wfeat) : gbfeat := {| gf_key := fk f; gf_loc := full_loc f; gf_info := Some [] |}.
+Lemma new_feat_line f : wf_feat f -> new_feat (feat_line f) = mk0 f.
 Proof. intros H. unfold new_feat. rewrite (fields_feat_line f H). reflexivity. Qed.
 
 Lemma step_first_feature f : wf_feat f ->
-  gb_step gb_init (feat_line f) = Ok {| st_closed := true; st_cur := mk f; st_key := []; st_val := []; st_done := []; st_line := 1 |}.
+  gb_step gb_init (feat_line f) = Ok {| st_closed := true; st_cur := mk0 f; st_key := []; st_val := []; st_done := []; st_line := 1 |}.
 Proof.
-  intros H. unfold gb_step, gb_init. cbn [st_closed st_line st_cur st_key st_val st_done]. rewrite (is_feature_feat_line f H). cbn [Nat.eqb andb].
+  intros H. unfold gb_step_gen, gb_init. cbn [st_closed st_line st_cur st_key st_val st_done]. rewrite (is_feature_feat_line f H). cbn [Nat.eqb andb].
   rewrite (new_feat_line f H). reflexivity.
 Qed.
 
@@ -141,16 +146,16 @@ Lemma step_qual s q m : wf_qual q -> st_closed s = true -> gf_info (st_cur s) = 
         st_cur := match st_key s with [] => st_cur s | _ => with_info (st_cur s) (m ++ [(st_key s, st_val s)]) end;
         st_key := qk q; st_val := qv q; st_done := st_done s; st_line := S (st_line s) |}.
 Proof.
-  intros Hq Hc Hm. unfold gb_step. rewrite is_feature_qual_line. cbn [andb]. rewrite (trim_qual_line q Hq). cbn [N.eqb Pos.eqb andb].
+  intros Hq Hc Hm. unfold gb_step_gen. rewrite is_feature_qual_line. cbn [andb]. rewrite (trim_qual_line q Hq). cbn [N.eqb Pos.eqb andb].
   rewrite (scan_qual q Hq). cbn [q_closed q_key q_val]. rewrite !rev_involutive.
   destruct (st_key s) as [|k0 kt] eqn:Ek; [reflexivity|]. rewrite Hc. cbn [negb]. unfold put_info. rewrite Hm. reflexivity.
 Qed.
 Lemma step_next_feature s f m : wf_feat f -> st_closed s = true -> gf_info (st_cur s) = Some m -> st_line s <> 0%nat ->
   gb_step s (feat_line f) =
-  Ok {| st_closed := true; st_cur := mk f; st_key := []; st_val := [];
+  Ok {| st_closed := true; st_cur := mk0 f; st_key := []; st_val := [];
         st_done := st_done s ++ [with_info (st_cur s) (m ++ [(st_key s, st_val s)])]; st_line := S (st_line s) |}.
 Proof.
-  intros Hf Hc Hm Hl. unfold gb_step. rewrite Hc, (is_feature_feat_line f Hf). destruct (Nat.eqb_spec (st_line s) 0); [contradiction|]. cbn [andb].
+  intros Hf Hc Hm Hl. unfold gb_step_gen. rewrite Hc, (is_feature_feat_line f Hf). destruct (Nat.eqb_spec (st_line s) 0); [contradiction|]. cbn [andb].
   destruct (trim_feat_line f Hf) as (t & Et & Hh). rewrite Et. destruct (N.eqb_spec (hd 0 (fk f)) 47); [contradiction|]. cbn [andb negb].
   unfold put_info. rewrite Hm. rewrite (new_feat_line f Hf). reflexivity.
 Qed.
@@ -164,7 +169,7 @@ Lemma fold_quals qs : Forall wf_qual qs -> forall s m rest, st_closed s = true -
 Proof.
   induction 1 as [|q qs Hq Hqs IH]; intros s m rest Hc Hm Hk.
   - exists s. cbn [map app length]. rewrite Nat.add_0_r. repeat split; try assumption; try reflexivity. exists m. split; [exact Hm|reflexivity].
-  - cbn [map app gb_fold]. rewrite (step_qual s q m Hq Hc Hm). cbn [bind].
+  - cbn [map app gb_fold_gen]. rewrite (step_qual s q m Hq Hc Hm). cbn [bind].
     destruct (st_key s) as [|k0 kt] eqn:Ek; [congruence|].
     set (s1 := {| st_closed := true; st_cur := with_info (st_cur s) (m ++ [(k0 :: kt, st_val s)]); st_key := qk q; st_val := qv q; st_done := st_done s; st_line := S (st_line s) |}).
     destruct (IH s1 (m ++ [(k0 :: kt, st_val s)]) rest) as (s' & E & H1 & H2 & H3 & H4 & H5 & H6 & m' & H7 & H8); try reflexivity.
@@ -174,14 +179,47 @@ Proof.
     + exists m'. split; [exact H7|]. rewrite H8. cbn [s1 st_key st_val map kv]. rewrite <- !app_assoc. reflexivity.
 Qed.
 
+(* ---- the lines that continue a location (repair D23) ---- *)
+Lemma is_feature_cont_line c b : wf_chunk c -> is_feature_line (cont_line c) b = false.
+Proof.
+  intros (Hne & Hns & _). unfold is_feature_line, cont_line. rewrite fields_indent. rewrite <- (app_nil_r c). rewrite fields_word by exact Hns.
+  cbn [fields_go]. rewrite app_nil_r. destruct (rev c) eqn:E; [exfalso; revert E; apply rev_nonnil; exact Hne|]. destruct b; reflexivity.
+Qed.
+Lemma trim_cont_line c : wf_chunk c -> trim_space (cont_line c) = c.
+Proof.
+  intros (Hne & Hns & _). destruct c as [|c0 t] eqn:Ec; [congruence|]. rewrite <- Ec in *. destruct (exists_last Hne) as (y & d & Ey).
+  unfold cont_line. apply (trim_space_line 21 c c0 t y d); [exact Ec| |exact Ey|].
+  - rewrite Ec in Hns. inversion Hns; assumption.
+  - unfold nospace in Hns. rewrite Forall_forall in Hns. apply Hns. rewrite Ey. apply in_app_iff. right; left; reflexivity.
+Qed.
+Lemma step_cont s c m : wf_chunk c -> st_closed s = true -> st_key s = [] -> gf_info (st_cur s) = Some m ->
+  gb_step s (cont_line c) =
+  Ok {| st_closed := true; st_cur := {| gf_key := gf_key (st_cur s); gf_loc := gf_loc (st_cur s) ++ c; gf_info := Some m |};
+        st_key := []; st_val := st_val s; st_done := st_done s; st_line := S (st_line s) |}.
+Proof.
+  intros Hc Hcl Hk Hm. unfold gb_step_gen. rewrite (is_feature_cont_line c _ Hc). cbn [andb]. rewrite (trim_cont_line c Hc).
+  destruct Hc as (Hne & _ & Hh). destruct c as [|c0 t]; [congruence|]. cbn [hd] in Hh.
+  destruct (N.eqb_spec c0 47); [contradiction|]. cbn [andb]. rewrite Hcl, Hk, Hm. reflexivity.
+Qed.
+Lemma fold_cont cs : Forall wf_chunk cs -> forall s m rest, st_closed s = true -> st_key s = [] -> gf_info (st_cur s) = Some m ->
+  gb_fold s (map cont_line cs ++ rest) =
+  gb_fold {| st_closed := true; st_cur := {| gf_key := gf_key (st_cur s); gf_loc := gf_loc (st_cur s) ++ concat cs; gf_info := Some m |};
+             st_key := []; st_val := st_val s; st_done := st_done s; st_line := (st_line s + length cs)%nat |} rest.
+Proof.
+  induction 1 as [|c cs Hc _ IH]; intros s m rest Hcl Hk Hm.
+  - cbn [map app concat length]. rewrite app_nil_r, Nat.add_0_r. destruct s as [a b k v d l]; cbn in *. subst. destruct b; cbn in *; subst. reflexivity.
+  - cbn [map app gb_fold_gen]. rewrite (step_cont s c m Hc Hcl Hk Hm). cbn [bind]. rewrite (IH _ m rest); try reflexivity.
+    cbn [st_cur st_val st_done st_line gf_key gf_loc concat length]. rewrite <- app_assoc, Nat.add_succ_r. reflexivity.
+Qed.
+
 (* ---- one whole feature after another ---- *)
 Lemma fold_feature_quals f s rest : wf_feat f -> st_closed s = true -> st_cur s = mk f -> st_key s = [] -> st_val s = [] ->
   exists s', gb_fold s (map qual_line (fquals f) ++ rest) = gb_fold s' rest /\
              st_closed s' = true /\ st_done s' = st_done s /\ st_line s' = (st_line s + length (fquals f))%nat /\ st_key s' <> [] /\ st_val s' <> [] /\
              exists m', st_cur s' = with_info (mk f) m' /\ m' ++ [(st_key s', st_val s')] = map kv (fquals f).
 Proof.
-  intros (_ & _ & _ & _ & _ & Hne & Hqs) Hc Hcur Hk Hv. destruct (fquals f) as [|q qs] eqn:Eq; [congruence|]. inversion Hqs as [|? ? Hq Hqs']; subst.
-  cbn [map app gb_fold]. rewrite (step_qual s q [] Hq Hc) by (rewrite Hcur; reflexivity). rewrite Hk. cbn [bind].
+  intros (_ & _ & _ & _ & _ & Hne & Hqs & _) Hc Hcur Hk Hv. destruct (fquals f) as [|q qs] eqn:Eq; [congruence|]. inversion Hqs as [|? ? Hq Hqs']; subst.
+  cbn [map app gb_fold_gen]. rewrite (step_qual s q [] Hq Hc) by (rewrite Hcur; reflexivity). rewrite Hk. cbn [bind].
   set (s1 := {| st_closed := true; st_cur := st_cur s; st_key := qk q; st_val := qv q; st_done := st_done s; st_line := S (st_line s) |}).
   destruct (fold_quals qs Hqs' s1 [] rest) as (s' & E & H1 & H2 & H3 & H4 & H5 & H6 & m' & H7 & H8); try reflexivity.
   { cbn [s1 st_cur]. rewrite Hcur. reflexivity. }
@@ -200,6 +238,20 @@ Proof.
     + rewrite H8. cbn [s1 st_key st_val app map kv]. reflexivity.
 Qed.
 
+Lemma fold_feature_lines f s rest : wf_feat f -> st_closed s = true -> st_cur s = mk0 f -> st_key s = [] -> st_val s = [] -> st_line s <> 0%nat ->
+  exists s', gb_fold s (map cont_line (fmore f) ++ map qual_line (fquals f) ++ rest) = gb_fold s' rest /\
+             st_closed s' = true /\ st_done s' = st_done s /\ st_line s' <> 0%nat /\ st_key s' <> [] /\ st_val s' <> [] /\
+             exists m', st_cur s' = with_info (mk f) m' /\ m' ++ [(st_key s', st_val s')] = map kv (fquals f).
+Proof.
+  intros Hf Hc Hcur Hk Hv Hl. assert (Hch : Forall wf_chunk (fmore f)) by (destruct Hf as (_ & _ & _ & _ & _ & _ & _ & H); exact H).
+  rewrite (fold_cont (fmore f) Hch s [] _ Hc Hk) by (rewrite Hcur; reflexivity).
+  set (s1 := {| st_closed := true; st_cur := _; st_key := []; st_val := st_val s; st_done := st_done s; st_line := _ |}).
+  destruct (fold_feature_quals f s1 rest Hf) as (s' & E & H1 & H2 & H3 & H4 & H5 & H6); try reflexivity.
+  { cbn [s1 st_cur]. rewrite Hcur. reflexivity. }
+  { cbn [s1 st_val]. exact Hv. }
+  exists s'. split; [exact E|]. split; [exact H1|]. split; [exact H2|]. split; [cbn [s1 st_line] in H3; lia|]. split; [exact H4|]. split; [exact H5|exact H6].
+Qed.
+
 Definition after (fs_done : list wfeat) (f : wfeat) (s : gbst) : Prop :=
   st_closed s = true /\ st_done s = map parsed fs_done /\ st_line s <> 0%nat /\ st_key s <> [] /\ st_val s <> [] /\
   exists m', st_cur s = with_info (mk f) m' /\ m' ++ [(st_key s, st_val s)] = map kv (fquals f).
@@ -208,17 +260,17 @@ Lemma fold_features fs : Forall wf_feat fs -> forall donef f s, after donef f s 
   exists s' donef' f', gb_fold s (render_features fs) = Ok s' /\ after donef' f' s' /\ donef' ++ [f'] = donef ++ [f] ++ fs.
 Proof.
   induction 1 as [|g fs Hg Hfs IH]; intros donef f s Ha.
-  - exists s, donef, f. cbn [render_features map concat gb_fold]. split; [reflexivity|]. split; [exact Ha|]. rewrite app_nil_r. reflexivity.
+  - exists s, donef, f. cbn [render_features map concat gb_fold_gen]. split; [reflexivity|]. split; [exact Ha|]. rewrite app_nil_r. reflexivity.
   - destruct Ha as (Hc & Hd & Hl & Hk & Hv & m' & Hcur & Hm').
-    cbn [render_features map concat]. fold (render_features fs). cbn [app gb_fold].
+    cbn [render_features map concat]. fold (render_features fs). unfold feat_lines at 1. cbn [app]. rewrite <- app_assoc. cbn [gb_fold_gen].
     rewrite (step_next_feature s g m' Hg Hc) by (try (rewrite Hcur; reflexivity); exact Hl). cbn [bind].
-    set (s1 := {| st_closed := true; st_cur := mk g; st_key := []; st_val := []; st_done := st_done s ++ [with_info (st_cur s) (m' ++ [(st_key s, st_val s)])]; st_line := S (st_line s) |}).
-    destruct (fold_feature_quals g s1 (render_features fs) Hg) as (s2 & E & H1 & H2 & H3 & H4 & H5 & m2 & H6 & H7); try reflexivity.
+    set (s1 := {| st_closed := true; st_cur := mk0 g; st_key := []; st_val := []; st_done := st_done s ++ [with_info (st_cur s) (m' ++ [(st_key s, st_val s)])]; st_line := S (st_line s) |}).
+    destruct (fold_feature_lines g s1 (render_features fs) Hg) as (s2 & E & H1 & H2 & H3 & H4 & H5 & m2 & H6 & H7); try reflexivity; [cbn [s1 st_line]; lia|].
     rewrite E.
     assert (Ha2 : after (donef ++ [f]) g s2).
     { split; [exact H1|]. split.
       - rewrite H2. cbn [s1 st_done]. rewrite Hd, map_app. cbn [map]. f_equal. f_equal. rewrite Hcur, Hm'. reflexivity.
-      - split; [cbn [s1 st_line] in H3; lia|]. split; [exact H4|]. split; [exact H5|]. exists m2. split; assumption. }
+      - split; [exact H3|]. split; [exact H4|]. split; [exact H5|]. exists m2. split; assumption. }
     destruct (IH (donef ++ [f]) g s2 Ha2) as (s' & donef' & f' & E' & Ha' & El). exists s', donef', f'. split; [exact E'|]. split; [exact Ha'|].
     rewrite El, <- !app_assoc. reflexivity.
 Qed.
@@ -226,12 +278,12 @@ Qed.
 Theorem features_roundtrip fs : fs <> [] -> Forall wf_feat fs -> parse_features (render_features fs) = Ok (map parsed fs).
 Proof.
   intros Hne Hwf. destruct fs as [|f fs]; [congruence|]. inversion Hwf as [|? ? Hf Hfs]; subst.
-  unfold parse_features. cbn [render_features map concat]. fold (render_features fs). cbn [app gb_fold]. rewrite (step_first_feature f Hf). cbn [bind].
-  set (s1 := {| st_closed := true; st_cur := mk f; st_key := []; st_val := []; st_done := []; st_line := 1 |}).
-  destruct (fold_feature_quals f s1 (render_features fs) Hf) as (s2 & E & H1 & H2 & H3 & H4 & H5 & m2 & H6 & H7); try reflexivity.
+  unfold parse_features_gen. cbn [render_features map concat]. fold (render_features fs). unfold feat_lines at 1. cbn [app]. rewrite <- app_assoc. cbn [gb_fold_gen]. rewrite (step_first_feature f Hf). cbn [bind].
+  set (s1 := {| st_closed := true; st_cur := mk0 f; st_key := []; st_val := []; st_done := []; st_line := 1 |}).
+  destruct (fold_feature_lines f s1 (render_features fs) Hf) as (s2 & E & H1 & H2 & H3 & H4 & H5 & m2 & H6 & H7); try reflexivity; [cbn [s1 st_line]; lia|].
   rewrite E.
   assert (Ha2 : after [] f s2).
-  { split; [exact H1|]. split; [rewrite H2; reflexivity|]. split; [cbn [s1 st_line] in H3; lia|]. split; [exact H4|]. split; [exact H5|]. exists m2. split; assumption. }
+  { split; [exact H1|]. split; [rewrite H2; reflexivity|]. split; [exact H3|]. split; [exact H4|]. split; [exact H5|]. exists m2. split; assumption. }
   destruct (fold_features fs Hfs [] f s2 Ha2) as (s' & donef' & f' & E' & (Hc & Hd & Hl & Hk & Hv & m' & Hcur & Hm') & El). rewrite E'. cbn [bind].
   destruct (st_key s') as [|k0 kt] eqn:Ek; [congruence|]. destruct (st_val s') as [|v0 vt] eqn:Ev; [congruence|].
   unfold put_info. rewrite Hcur. cbn [with_info gf_info gf_key gf_loc mk]. rewrite Hd. f_equal.
@@ -258,3 +310,23 @@ Corollary parse_origin_lines (lines : list (list (list N * list N))) :
 Proof.
   intros H. unfold parse_origin. induction H as [|l t Hl _ IH]; [reflexivity|]. cbn [map concat]. rewrite filter_app, IH, (origin_roundtrip l Hl). reflexivity.
 Qed.
+
+(* ---- before repair D23 a location continued on a second line was cut at the line end ---- *)
+Definition wrapped_cds : wfeat :=
+  {| fk := bs "CDS"; floc := bs "join(4..12,20..28,"; fmore := [bs "40..48)"]; fquals := [{| qk := bs "gene"; qv := bs "g1"; qquoted := true |}] |}.
+Lemma wrapped_cds_wf : wf_feat wrapped_cds.
+Proof.
+  unfold wf_feat, wrapped_cds, wf_chunk, wf_qual, nospace, lacks. cbn [fk floc fmore fquals qk qv qquoted].
+  repeat match goal with
+         | |- _ /\ _ => split
+         | |- Forall _ _ => repeat constructor
+         | |- _ <> _ => discriminate
+         | |- forall c, In c _ -> _ => let H := fresh in intros ? H; cbn in H; repeat (destruct H as [<-|H]; [discriminate|]); destruct H
+         | |- false = false -> _ => intros _
+         | |- true = false -> _ => discriminate
+         end.
+Qed.
+Theorem wrapped_location_old_refuted :
+  exists f, wf_feat f /\ parse_features_old (render_features [f]) = Ok [{| gf_key := fk f; gf_loc := floc f; gf_info := gf_info (parsed f) |}] /\
+            floc f <> full_loc f /\ parse_features (render_features [f]) = Ok [parsed f].
+Proof. exists wrapped_cds. split; [exact wrapped_cds_wf|]. split; [vm_compute; reflexivity|]. split; [discriminate|]. vm_compute. reflexivity. Qed.
